@@ -51,7 +51,7 @@ def compact(number):
     """Convert the number to the minimal representation. This strips the
     number of any valid separators and removes surrounding whitespace."""
     number = clean(number, ' .-').strip()
-    if number.startswith('0000'):
+    if len(number) == 11 and number.startswith('0000'):
         number = number[4:]  # strip leading 0000 postgiro bank code
     return number
 
